@@ -465,6 +465,12 @@ def _judge(ctx, c_enc1, c_enc2, c_enc3, c_enc4, c_enc6, cls, indirect):
                     continue
                 forms_reached.add(chosen)
                 emit(c_enc1, "ok", sitep + ":" + chosen, "post=%#04x" % mask, "", where)
+                # the displacement emitted is the operand itself, or is rebuilt from it with its sign: .int is the magnitude only
+                if isinstance(add, Ctor) and add.cls == "NumericValue" and add.args and re.fullmatch(r"<(self\.left|additional)(@\d+)?\.int>", repr(add.args[0])) \
+                        and not any(a.endswith(".is_negative()") for a in ta | fa):
+                    emit(c_enc1, "finding", sitep + ":" + chosen + ":sign", "the displacement is rebuilt from the magnitude of the operand (sign dropped)",
+                         "%s: a numeric n,PCR displacement is emitted as NumericValue(%s): .int holds the magnitude and the sign lives in a separate flag, so -5,PCR is encoded as +5"
+                         % (cls, repr(add.args[0])), where)
                 w = width_of(add, None, None)
                 _three_way(emit, c_enc2, c_enc3, sitep + ":" + chosen, cls, chosen, extra, "dyn" if size_dyn else size_inc, max_inc, w, choices, where)
     if c_enc4 is not None:
